@@ -13,7 +13,8 @@ from harness import common, rules
 
 POOL = ["a", "ab", "a_b", "aa", "b", "ba", "c", "x1", "_a", "A", "caf\u00e9"]
 EXTERNALS = ["os", "logging", "logging.handlers", "xml.etree.ElementTree", "loggingx", "handlers", "ab", "a", "proj2", "projx.y", "os.path",
-             "logging_handlers", "loggingXhandlers.api", "os_path", "xml_etree.x"]     # look-alikes of dotted names (the dot read as "any character")
+             "logging_handlers", "loggingXhandlers.api", "os_path", "xml_etree.x",     # look-alikes of dotted names (the dot read as "any character")
+             "Logging", "Logging.Handlers", "OS.path", "XML.etree"]                    # twins that differ in case only: patterns are case sensitive
 
 
 # --------------------------------------------------------------------------
